@@ -21,7 +21,7 @@ EXTENDS GlomData
 
 CONSTANTS DefMutant,         \* "none" | "first_or_default"                        (mutant of the definition, A)
           PullMutant,        \* "none" | "reverse" | "takewhile_drain" | "tkey_called" | "check_passes" |
-                             \* "sepfn_ignored"                                    (mechanism mutants, B)
+                             \* "sepfn_ignored" | "skey_unscoped" | "filter_ne"     (mechanism mutants, B)
           BuildMutant        \* "none" | "inplace" | "sharekw" | "dropsentinel"    (mechanism mutants, C;
                              \*   "dropsentinel" = _add_op as it was before commit 54a8dd1)
 
@@ -34,27 +34,38 @@ VList(xs)  == [k |-> "list",  items |-> xs]
 VTuple(xs) == [k |-> "tuple", items |-> xs]
 IsSeqV(v)  == v.k \in {"list", "tuple"}
 
+\* two "hostile" items whose own notion of equality must never matter to a pipeline:
+\*   any  : compares equal to everything (mock.ANY-like: == is True, != is False), truthy, unhashable
+\*   null : every comparison yields the (falsy) object itself, falsy, unhashable
+VAny  == [k |-> "any"]
+VNull == [k |-> "null"]
+\* truth value of Python's  a == b  for a stream item a and a plain value b (a.__eq__ decides)
+PyEq(a, b) == IF a.k = "any" THEN TRUE ELSE IF a.k = "null" THEN FALSE ELSE a = b
+
 Truthy(v) == CASE v.k = "int"  -> v.i # 0
                [] v.k = "none" -> FALSE
+               [] v.k = "null" -> FALSE
                [] v.k = "sent" -> FALSE            \* glom's sentinels are falsy
                [] IsSeqV(v)    -> v.items # <<>>
                [] OTHER        -> TRUE
 
 RECURSIVE Hashable(_)
-Hashable(v) == CASE v.k = "list"  -> FALSE
+Hashable(v) == CASE v.k \in {"list", "any", "null"} -> FALSE
                  [] v.k = "tuple" -> \A j \in 1..Len(v.items) : Hashable(v.items[j])
                  [] OTHER         -> TRUE
 
 \* the fixed library of functions.  A stage key / subspec is a *glom spec*: the same function may be
 \* spelled as a Python callable (plain name), a T expression (_T: T[0], T.count(0)), a path string
 \* (_str: '0'), a tuple chain (_tup: (T, fn)), Spec(..) (_spec) or, for filter, a Check (_check:
-\* Check(validate=fn, default=SKIP)).  The law does not depend on the spelling.
+\* Check(validate=fn, default=SKIP)) or a spec reading the *scope of the running call* (_S:
+\* Invoke(f).specs(T, S.cut), with cut = 2 / one = 1 passed by the caller via scope= or bound by S(..) earlier
+\* in the same spec).  The law does not depend on the spelling.
 BaseFn(f) ==
   CASE f \in {"item0_T", "item0_str", "item0_spec"} -> "item0"
     [] f = "cnt0_T" -> "cnt0"
-    [] f \in {"inc_tup", "inc_spec"} -> "inc"
-    [] f = "mod2_tup" -> "mod2"
-    [] f \in {"lt2_tup", "lt2_spec", "lt2_check"} -> "lt2"
+    [] f \in {"inc_tup", "inc_spec", "inc_S"} -> "inc"
+    [] f \in {"mod2_tup", "mod2_S"} -> "mod2"
+    [] f \in {"lt2_tup", "lt2_spec", "lt2_check", "lt2_S"} -> "lt2"
     [] f = "odd_spec" -> "odd"
     [] OTHER -> f
 Spelling(f) ==
@@ -63,6 +74,7 @@ Spelling(f) ==
     [] f \in {"inc_tup", "mod2_tup", "lt2_tup"} -> "tup"
     [] f \in {"item0_spec", "inc_spec", "lt2_spec", "odd_spec"} -> "spec"
     [] f = "lt2_check" -> "check"
+    [] f \in {"inc_S", "mod2_S", "lt2_S"} -> "S"
     [] OTHER -> "plain"
 \* value functions (total on the item universe except item0 / cnt0, see FnRaises)
 ApplyBase(g, v) ==
@@ -73,7 +85,7 @@ ApplyBase(g, v) ==
     [] g = "dup"      -> VList(<<v, v>>)
     [] g = "mod2"     -> IF v.k = "int" THEN VInt(v.i % 2) ELSE v
     [] g = "item0"    -> IF IsSeqV(v) /\ v.items # <<>> THEN v.items[1] ELSE VNone      \* x[0]
-    [] g = "cnt0"     -> IF IsSeqV(v) THEN VInt(Cardinality({j \in 1..Len(v.items) : v.items[j] = VInt(0)}))
+    [] g = "cnt0"     -> IF IsSeqV(v) THEN VInt(Cardinality({j \in 1..Len(v.items) : PyEq(v.items[j], VInt(0))}))
                          ELSE VNone                                                      \* x.count(0)
 ApplyFn(f, v) == ApplyBase(BaseFn(f), v)
 \* the function raises on this item (such pipelines are ill-typed: outside the law)
@@ -125,9 +137,9 @@ SliceNextSel(st, n) == IF n <= st.a THEN st.a ELSE st.a + (((n - st.a) + st.c - 
 
 Pad(st, rem) == IF st.b = 1 THEN rem \o [j \in 1..(st.a - Len(rem)) |-> st.v] ELSE rem
 
-IsSep(st, s) == CASE st.f = "none" -> s = VNone
+IsSep(st, s) == CASE st.f = "none" -> PyEq(s, VNone)         \* split_iter tests  x == sep
                   [] st.f = "fn" -> PredFn(st.v.s, s)         \* a callable separator
-                  [] OTHER -> s = st.v
+                  [] OTHER -> PyEq(s, st.v)
 RECURSIVE SplitRun(_, _, _, _, _, _)
 SplitRun(st, xs, i, cur, cnt, acc) ==     \* str.split for iterables (boltons split_iter docs)
   IF i > Len(xs) THEN [acc |-> acc, cur |-> cur]
@@ -249,7 +261,7 @@ ConsumerEvents(XM, k) == CapEv(XM, k)      \* k calls of next(), stopping at END
 \* ---- the prediction record for one (pipe, source): everything the law says ---------------
 \* the (key, default) pairs of first() that are predicted for every case; [p "T", d None] is first()
 FirstVariants == << [p |-> "T", d |-> VNone], [p |-> "notnone", d |-> VInt(7)], [p |-> "even", d |-> VInt(9)],
-                    [p |-> "isempty", d |-> VInt(7)], [p |-> "item0_T", d |-> VInt(7)] >>
+                    [p |-> "isempty", d |-> VInt(7)], [p |-> "item0_T", d |-> VInt(7)], [p |-> "lt2_S", d |-> VInt(7)] >>
 RECURSIVE FirstTrue(_, _, _)
 FirstTrue(p, xs, i) == IF i > Len(xs) THEN 0 ELSE IF PredFn(p, xs[i]) THEN i ELSE FirstTrue(p, xs, i + 1)
 
@@ -323,6 +335,7 @@ InitLoc(st) == [buf |-> <<>>, outq |-> <<>>, cnt |-> 0, nxt |-> IF st.kind = "sl
 \* *called* instead of glommed and so is always truthy; a Check key lets everything through; a
 \* callable separator never separates)
 MPred(f, v) == IF PullMutant = "tkey_called" /\ Spelling(f) = "T" THEN TRUE
+               ELSE IF PullMutant = "skey_unscoped" /\ Spelling(f) = "S" THEN FALSE
                ELSE IF PullMutant = "check_passes" /\ Spelling(f) = "check" THEN TRUE
                ELSE PredFn(f, v)
 MIsSep(st, v) == IF PullMutant = "sepfn_ignored" /\ st.f = "fn" THEN FALSE ELSE IsSep(st, v)
@@ -335,7 +348,8 @@ Recv(st, l, v) ==
          ELSE IF y = st.v \/ y = STOP THEN [l EXCEPT !.done = TRUE]
          ELSE [l EXCEPT !.outq = <<y>>]
     [] st.kind = "map" -> [l EXCEPT !.outq = <<ApplyFn(st.f, v)>>]
-    [] st.kind = "filter" -> IF MPred(st.f, v) THEN [l EXCEPT !.outq = <<v>>] ELSE l
+    [] st.kind = "filter" ->                    \* (mutant filter_ne: "result != SKIP" lets the item's __ne__ decide)
+         IF MPred(st.f, v) /\ ~(PullMutant = "filter_ne" /\ v.k \in {"any", "null"}) THEN [l EXCEPT !.outq = <<v>>] ELSE l
     [] st.kind = "slice" ->                      \* islice_next: skip loop, then the item
          IF l.cnt < l.nxt THEN [l EXCEPT !.cnt = @ + 1]
          ELSE LET nn == l.nxt + st.c IN
